@@ -49,10 +49,16 @@ TEXT["cli"] = ("The same TLC-generated and random store behaviours are executed 
                "follow streams (`xs cat --follow`, `xs cat --pulse n --limit m`) run as child processes while frames are appended. "
                "Every answer is also asked of the Store API in the same state (differential: FrontEnd rule of TraceStore); the trace "
                "is validated by TLC against TraceStore.")
+TEXT["routes"] = ("XsRoutes transcribes the dispatch table of src/api.rs (match_route, handle and the handlers' own refusals) as a function from "
+                  "method x path shape x query shape x Accept x body shape to status, effect on the store and rendering; TLC checks the design "
+                  "statements (totality, a refusal changes nothing, only POST / DELETE write, id paths unambiguous, fixed arms first, DELETE "
+                  "idempotent) over the whole alphabet and emits one vector per request (8040); every vector is sent as raw HTTP/1.1 to the "
+                  "real front end and the recorded outcome is validated by TLC against the same function.")
 TEXT["nu"] = ("The same TLC-generated and random store behaviours are executed by nu scripts through the commands xs gives to "
               "scripts (src/nu/commands, src/nu/util.rs), one engine per context wired as src/commands/serve.rs does; every answer "
               "is also asked of the Store API in the same state (FrontEnd rule); the trace is validated by TLC against TraceStore.")
 NOTE = {
+ "routes": "Trusted: the harness' classification of what changed (every 50th vector against the raw partitions, otherwise through reads). Bounded: the path / query / body shapes of the alphabet; one representative string per shape.",
  "nu": "Trusted: the harness' one-line scripts and its conversion of nu values back to frame JSON (through xs::nu::value_to_json). Bounded: record metas with integers inside i64, printable topics; all-contexts reads, tail, import and POST /cas have no script command and stay with the Store API.",
  "cli": "Trusted: the harness' parsing of the tool's output and error text (HTTP status taken from the client's error message). Bounded: URL-safe topics without NUL; `xs cat --sse` and `xs head --follow` are not exercised through the tool; a successful call that prints nothing ends the behaviour (counted in the evidence).",
  "codec": "Trusted: the transcription is checked against the code by the vectors themselves. Limit of the technique (DESIGN 5, C12): the grammar is exhaustive at token level, data values are classes.",
@@ -65,6 +71,7 @@ NOTE = {
  "store": "Trusted: TLC, the harness' abstraction of concrete values back to model tokens, the xs_verif hooks (virtual clock, GC gate, raw dump). Bounded: model constants in spec/MC_store_*.cfg; behaviours sampled, not enumerated.",
 }
 TECH = {
+ "routes": "TLC enumeration of a TLA+ transcription of the HTTP dispatch table + one implementation test per model case, outcomes validated by TLC",
  "nu": "TLC trace validation (TraceStore + differential front-end rule) of model-generated behaviours executed through xs's nu commands",
  "cli": "TLC trace validation (TraceStore + differential front-end rule) of model-generated behaviours executed by the real xs binary",
  "dur": "TLC model checking of XsDurable + real kill images and reconstructed power-loss images recovered by the real store + TLC trace validation (TraceDurable)",
@@ -74,7 +81,7 @@ TECH = {
  "conc": "TLC model checking of XsConcurrent + gate-scheduled replay/exploration of real threads + TLC trace validation (TraceFollow)",
  "store": "TLC model checking of XsStore + TLC trace validation (TraceStore) of replayed behaviours on the real store",
 }
-DESIGN = {"nu": "DESIGN.md 0.3 (nu group), 5 (C06 C10 C12)", "cli": "DESIGN.md 0.3 (cli group), 5 (C12 C13 C20)", "proc": "DESIGN.md 3 (XsHandlers/XsGenerators/XsCommands), 5 (C14-C19), docs/proc-notes.md", "dur": "DESIGN.md 3 (XsDurable), 4.4, 5 (C04 C10 C07); docs/dur-notes.md", "codec": "DESIGN.md 5 (C12)","http": "DESIGN.md 5 (C13), Appendix D","conc": "DESIGN.md 3, 4.1, 5 (C02 C03 C11)", "store": "DESIGN.md 3, 4, 5 (C01 C05 C07 C08 C09 C20)"}
+DESIGN = {"routes": "DESIGN.md 0.3 (routes group), Appendix D", "nu": "DESIGN.md 0.3 (nu group), 5 (C06 C10 C12)", "cli": "DESIGN.md 0.3 (cli group), 5 (C12 C13 C20)", "proc": "DESIGN.md 3 (XsHandlers/XsGenerators/XsCommands), 5 (C14-C19), docs/proc-notes.md", "dur": "DESIGN.md 3 (XsDurable), 4.4, 5 (C04 C10 C07); docs/dur-notes.md", "codec": "DESIGN.md 5 (C12)","http": "DESIGN.md 5 (C13), Appendix D","conc": "DESIGN.md 3, 4.1, 5 (C02 C03 C11)", "store": "DESIGN.md 3, 4, 5 (C01 C05 C07 C08 C09 C20)"}
 
 # what each check decides of its property, and through which group
 PROP = {
@@ -90,7 +97,7 @@ PROP = {
  "C10": "store/http: byte-exact read-back of every content class, hash determinism across calls, entry points (Store API, POST /{topic}, POST /cas) and restarts, no body => no hash, every visible hash has content; conc: content readable at delivery; dur: after every kill image. nu / handler / command / generator entry points: processors group.",
  "C11": "conc: limit exact for every split between history and live, tail, synthetic frames private, stream ends after lag (B = 1 scenarios and production sizes in stress); store: limit on non-following reads incl. expired frames, tail without follow.",
  "C12": "codec: TTL and read-option grammar exhaustively at token level through every spelling and entry point, 2000 seeded ReadOptions round trips; store/http: every accepted frame (meta classes: deep nesting, u64::MAX, i64::MIN, 1e300, escapes, non-object metas, 5 KB strings) reads back identical on every path and survives reopen; a panic in the decoder is an observation; cli: what the command line client encodes (context, ttl, xs-meta, last-id, limit, tail, all-contexts) is what the server decodes, judged by the effect and differentially against the Store API.",
- "C13": "http: each route against the store semantics (TraceStore) with status codes and, differentially, against the Store API asked the same question in the same state (reads, get, head, effect of append / import / remove); NDJSON = SSE, ~43 malformed request classes answered 4xx with unchanged partitions and a serving server, follow routes (tail, from the beginning, heartbeat + limit, head --follow); cli: the same through the xs binary and src/client.",
+ "C13": "http: each route against the store semantics (TraceStore) with status codes and, differentially, against the Store API asked the same question in the same state (reads, get, head, effect of append / import / remove); NDJSON = SSE, ~43 malformed request classes answered 4xx with unchanged partitions and a serving server, follow routes (tail, from the beginning, after an id, heartbeat + limit, head --follow); routes: the dispatch table enumerated (8040 requests) against its TLA+ transcription; cli: the same through the xs binary and src/client.",
  "C14": "proc: per handler instance, from the dumped stream alone: invoked exactly once ($env counter in the content), in id order, one group at a time, for every eligible frame of its context after its resume point (head / tail / after-id), never for its own output, for old registration traffic of its name or for another context; bursts from several client threads while the closure sleeps; pulse handlers.",
  "C15": "proc: every output group = explicit appends in call order then the return frame on <name><suffix> with the configured ttl, all stamped {handler_id, frame_id}, in the handler's context whatever --context said, content in CAS and as predicted (every nu return type, colliding user meta, meta values through nu); a failing invocation leaves nothing but one .unregistered with the error.",
  "C16": "proc: one announcement per registration (.registered, or .unregistered with error for invalid scripts), stop by a later (un)register of the (context, name) - also one the handler appends itself - or a failing trigger, announced exactly once, silent afterwards; at most one responder per (context, name); names that are prefixes of one another. Known findings C16-double-register / C16-unregister-in-flight by their specific pattern only.",
